@@ -18,7 +18,7 @@ LEVEL = "model_checking"
 TECHNIQUE = ("explicit-state breadth-first search over workspace operation sequences on the real Workspace API (states = canonical JSON), every transition compared "
              "with a list-of-dicts reference model and the reference likelihood; all ordered pairs x 4 joins x merge on/off for combine")
 PRELOAD = None
-LEVEL_TEXT = ("Pairs: all ordered pairs of a 10-workspace alphabet (disjoint / overlapping-identical / overlapping-conflicting channels, observations, measurements; "
+LEVEL_TEXT = ("Pairs: all ordered pairs of an 11-workspace alphabet (disjoint / overlapping-identical / overlapping-conflicting channels, observations, measurements; "
               "shared and private parameters; different POI; different version) x 4 joins x merge on/off against the reference join facts and the reference "
               "likelihood. Histories: BFS to depth 2 (3 thorough) over {combine, prune(each item), rename(each name and swaps), sorted}; every transition calls "
               "the real API on a workspace rebuilt from the state's JSON and is compared with the reference model; rename inverse, sort idempotence and "
@@ -61,6 +61,9 @@ def alphabet():
         "Fver": W("f", [7.0, 9.0], version="1.1.0"),
         "Gpar": W("g", [21.0, 23.0], pars=[mu_a]),
         "Hpar": W("h", [31.0, 33.0], pars=[mu_b]),
+        "Ipar2": dict(W("i", [41.0, 43.0], pars=[{"name": "n1", "inits": [0.1], "bounds": [[-4.0, 4.0]]}]),
+                      measurements=[{"name": "m", "config": {"poi": "mu", "parameters": [{"name": "n1", "inits": [0.1], "bounds": [[-4.0, 4.0]]}]}},
+                                    {"name": "zz_last", "config": {"poi": "n1", "parameters": []}}]),
     }
 
 
@@ -74,7 +77,7 @@ def plan(tier, seed):
         cases.append({"kind": "bfs", "root": root, "depth": depth})
     return dict(
         cases=cases, chunk=1,
-        rule="pair case = ordered pair of the 10-workspace alphabet x {none, outer, left outer, right outer} x merge_channels on/off; bfs case = breadth-first search from a "
+        rule="pair case = ordered pair of the 11-workspace alphabet x {none, outer, left outer, right outer} x merge_channels on/off; bfs case = breadth-first search from a "
              "root workspace over {combine with A/B/Em2lumi (none, outer), prune each single channel/sample/modifier/modifier type/measurement, rename each single "
              "name and swaps, sorted} to the stated depth, deduplicated on canonical JSON; non-trivial = case contains accepted and refused operations; distinct = distinct case",
         alphabet={"workspaces": names, "joins": ["none", "outer", "left outer", "right outer"]},
